@@ -723,6 +723,26 @@ def is_range_index(path, full):
     return (path.endswith("::index") or path.endswith("::index_mut")) and ("ops::Range" in full) and ("[" in full or "Vec<" in full)
 
 
+def m_cell(ip, st, fr, t, args):
+    """std::cell::Cell<T> is transparent: new(v) = v, get(&c) = *c, set(&c, v): *c = v, replace / take likewise"""
+    name = (t["callee"]["path"] or "").split("::")[-1]
+    if name == "new":
+        return args[0]
+    c = args[0]
+    if not isinstance(c, Ref):
+        return None
+    if name == "get":
+        return ip.read_loc(st, c.root, c.path)
+    if name == "set":
+        ip.write_loc(st, c.root, c.path, args[1])
+        return UNIT
+    if name == "replace":
+        old = ip.read_loc(st, c.root, c.path)
+        ip.write_loc(st, c.root, c.path, args[1])
+        return old
+    return None
+
+
 def m_default_scalar(ip, st, fr, t, args):
     """<integer / bool as Default>::default() = 0 / false"""
     ii = ip.int_info(t["dest"]["ty"])
@@ -793,6 +813,7 @@ def standard_models():
         (lambda p, f: (p or "").endswith(" as std::default::Default>::default") and (p or "")[1:].split(" ")[0] in ("u8", "u16", "u32", "u64", "u128", "usize", "i8", "i16", "i32", "i64", "i128", "isize", "bool"), m_default_scalar),
         # `&x[..]` / `&mut x[..]`: the whole array / slice / vector as a slice - the same place
         (lambda p, f: "RangeFull" in ((f or "") + (p or "")) and ((p or "").endswith("::index") or (p or "").endswith("::index_mut")), m_identity0),
+        (lambda p, f: (p or "").startswith("std::cell::Cell::<T>::") or (p or "").startswith("core::cell::Cell::<T>::") or (p or "").startswith("std::cell::Cell::<"), m_cell),
         (lambda p, f: (p or "").startswith("anyhow::__private::"), m_anyhow),
         (lambda p, f: (p or "").startswith("anyhow::context::<impl anyhow::Context<") and ((p or "").endswith("::with_context") or (p or "").endswith("::context")), m_identity0),
     ]
